@@ -103,10 +103,11 @@ Definition dispf_small (s : str) : option str :=
   if str_eqb s (L "9007199254740993") then Some (L "9007199254740992")
   else match s with [] => None | _ => if forallb is_digit s then Some (show_N (n_of_digits s)) else None end.
 
-Definition fails (f : field) : Prop :=
-  in_domain f = true /\
-  (field_chain dispf_small f = Panic \/
-   exists v chain, field_chain dispf_small f = Ok (v, chain) /\ c11_field_ok f chain = false).
+Definition fails_b (f : field) : bool :=
+  in_domain f &&
+  match field_chain dispf_small f with Panic => true | Ok (_, chain) => negb (c11_field_ok f chain) end.
+(* in the domain, and the faithful model panics or emits a chain the oracle rejects *)
+Definition fails (f : field) : Prop := fails_b f = true.
 Definition fld (t : ty) (items : list item) : field := {| f_ty := t; f_attrs := [AValidate items] |}.
 Definition m_ (s : string) : arg := AMsg (dq :: L s ++ [dq]) (L s).       (* a literal without escapes *)
 Definition n_ (s : string) : num := Num false (L s).
@@ -124,25 +125,24 @@ Definition w8 := fld TyString [IEmail (Some [m_ "m"])].
 Definition w9 := fld TyNum [IRange [AMin (n_ "9007199254740993")]].
 
 Lemma kf1_refuted : kf_neg_bound w1 = true /\ fails w1.
-Proof. split; [reflexivity|]. split; [reflexivity|]. right. eexists. eexists. split; vm_compute; reflexivity. Qed.
+Proof. split; vm_compute; reflexivity. Qed.
 Lemma kf2_refuted : kf_paren_in_literal w2 = true /\ fails w2.
-Proof. split; [reflexivity|]. split; [reflexivity|]. right. eexists. eexists. split; vm_compute; reflexivity. Qed.
+Proof. split; vm_compute; reflexivity. Qed.
 Lemma kf3_refuted : kf_email_url_substring w3 = true /\ fails w3.
-Proof. split; [reflexivity|]. split; [reflexivity|]. right. eexists. eexists. split; vm_compute; reflexivity. Qed.
+Proof. split; vm_compute; reflexivity. Qed.
 Lemma kf4_refuted : kf_keyword_in_text w4 = true /\ fails w4.
-Proof. split; [reflexivity|]. split; [reflexivity|]. right. eexists. eexists. split; vm_compute; reflexivity. Qed.
+Proof. split; vm_compute; reflexivity. Qed.
 Lemma kf5_refuted : kf_multibyte_message w5 = true /\ fails w5 /\ field_chain dispf_small w5 = Panic
                     /\ kf_multibyte_message w5b = true /\ fails w5b.
-Proof. split; [reflexivity|]. split; [split; [reflexivity|left; vm_compute; reflexivity]|]. split; [vm_compute; reflexivity|].
-  split; [reflexivity|]. split; [reflexivity|]. right. eexists. eexists. split; vm_compute; reflexivity. Qed.
+Proof. repeat split; vm_compute; reflexivity. Qed.
 Lemma kf6_refuted : kf_escape_chain w6 = true /\ fails w6.
-Proof. split; [reflexivity|]. split; [reflexivity|]. right. eexists. eexists. split; vm_compute; reflexivity. Qed.
+Proof. split; vm_compute; reflexivity. Qed.
 Lemma kf7_refuted : kf_option_below_vec w7 = true /\ fails w7.
-Proof. split; [reflexivity|]. split; [reflexivity|]. right. eexists. eexists. split; vm_compute; reflexivity. Qed.
+Proof. split; vm_compute; reflexivity. Qed.
 Lemma kf8_refuted : kf_flag_message w8 = true /\ fails w8.
-Proof. split; [reflexivity|]. split; [reflexivity|]. right. eexists. eexists. split; vm_compute; reflexivity. Qed.
+Proof. split; vm_compute; reflexivity. Qed.
 Lemma kf9_refuted : kf_f64_inexact dispf_small w9 = true /\ fails w9.
-Proof. split; [reflexivity|]. split; [reflexivity|]. right. eexists. eexists. split; vm_compute; reflexivity. Qed.
+Proof. split; vm_compute; reflexivity. Qed.
 
 (* each witness lies in its own class only (the classes are independent triggers) *)
 Lemma witnesses_separate :
